@@ -223,7 +223,8 @@ MUTANTS = [
     dict(prop="C30", name="get_component: tuple applied in forward order", file=RES_K, old="        for k in component[-1::-1]:", new="        for k in component:"),
     dict(prop="C30", name="get_component: trace sums only x,y", file=RES_K, old="return sum([_data[((i,) * ndim)] for i in range(3)])", new="return sum([_data[((i,) * ndim)] for i in range(2 if ndim == 3 else 3)])"),
     dict(prop="C30", name="find_grid: floor instead of round", file=TABF, old="            grid[i] = int(np.round(1. / dk))", new="            grid[i] = int(1. / dk)"),
-    dict(prop="C29", name="from_nodes: endpoint=True sampling", file=PATHF, old="np.linspace(0, 1., _nk - 1, endpoint=False)", new="np.linspace(0, 1., _nk - 1, endpoint=(_nk == 2))"),
+    dict(prop="C29", name="from_nodes: endpoint=True sampling", file=PATHF, old="np.linspace(0, 1., _nk - 1, endpoint=False)", new="np.linspace(0, 1., _nk - 1, endpoint=True)"),
+    dict(prop="C29", expect="ok", name="PRESERVING: endpoint flag that only differs for a single sample (linspace of one point is [0] either way)", file=PATHF, old="np.linspace(0, 1., _nk - 1, endpoint=False)", new="np.linspace(0, 1., _nk - 1, endpoint=(_nk == 2))"),
     dict(prop="C29", name="from_nodes: break index off by one", file=PATHF, old="                breaks.append(K_list.shape[0] - 1)", new="                breaks.append(K_list.shape[0])"),
     dict(prop="C29", name="from_nodes: label of segment end", file=PATHF, old="                new_labels[K_list.shape[0]] = l1\n                start = np.array(start)", new="                new_labels[K_list.shape[0]] = l2\n                start = np.array(start)"),
     dict(prop="C29", name="get_refined: segment after a break refined", file=PATHF, old="            if i not in self.breaks:\n                segment", new="            if (i - 1) not in self.breaks:\n                segment"),
